@@ -163,6 +163,27 @@ def add_error_capture_twice(rng, case):
     return 1
 
 
+def add_error_capture_pair(rng, case):
+    """Error capture with DIFFERENT levels of detail on two different nodes of one definition (same schemas, different inputs and
+    scalars): each error output reports the detail of its own request, whichever request is wired first (and whatever an
+    earlier graph of the process asked for)."""
+    main = case.graphs["main"]
+    ports = [st.dst for st in main if st.dst and st.op in ("src", "ticker", "pass", "add2", "acc", "count")]
+    if len(ports) < 2:
+        return 0
+    a, b = rng.sample(ports, 2)
+    u = 1 + max([s.uid() or 0 for g in case.graphs.values() for s in g] + [0])
+    op = rng.choice(["pass", "acc", "count"])
+    weak, strong = dict(depth=rng.choice([0, 1]), values=0), dict(depth=rng.choice([2, 3]), values=1)
+    if rng.random() < 0.5:
+        weak, strong = strong, weak
+    main += [S("ep1_", op, a, uid=u), S("ep2_", op, b, uid=u + 1), S("eq1_", "err", "ep1_", **weak), S("eq2_", "err", "ep2_", **strong),
+             S("", "recerr", "eq1_", uid=u + 2), S("", "recerr", "eq2_", uid=u + 3)]
+    case.faults = [(u, "eval", o) for o in sorted(rng.sample(range(1, 6), 2))] + [(u + 1, "eval", o) for o in sorted(rng.sample(range(1, 6), 2))]
+    case.meta["errpair"] = [u, u + 1]
+    return 1
+
+
 def pick_alias(rng, alias, a):
     pas = a.startswith("~")
     n = a[1:] if pas else a
@@ -224,6 +245,7 @@ def generate(rng, tier, seed):
         expect = add_duplicates(rng, base)
         base.meta["packed"] = add_packed_family(rng, base, expect) if k % 3 == 0 else 0
         base.meta["errtwice_n"] = add_error_capture_twice(rng, base) if k % 4 == 1 else 0
+        base.meta["errpair_n"] = add_error_capture_pair(rng, base) if k % 4 == 3 else 0
         # a near-duplicate that differs in one input NAME may still read the same port (pass-through sub-graphs, a call that
         # passes one port twice): then the two wirings are exact duplicates and sharing is permitted
         try:
@@ -255,6 +277,9 @@ def generate(rng, tier, seed):
             c.meta["expect"] = base.meta["expect"]
             c.meta["packed"] = base.meta["packed"]
             c.meta["errtwice_n"] = base.meta["errtwice_n"]
+            c.meta["errpair_n"] = base.meta["errpair_n"]
+            if base.meta.get("errpair"):
+                c.meta["errpair"] = base.meta["errpair"]
             c.meta["order"] = j
             cases.append(c)
     return cases
@@ -274,6 +299,8 @@ def check(case, tr):
         return res
     flat = M.flatten(case)
     cap = {case.meta["errtwice"]} if case.meta.get("errtwice") is not None else ()
+    if case.meta.get("errpair"):
+        cap = set(case.meta["errpair"])
     mr = M.simulate(flat, captured=cap)
     mism = compare_runs(case, run, mr)
     known_dev = False
@@ -344,6 +371,7 @@ def check(case, tr):
     res.counters = {"order_pairs_compared": pairs, "shared_duplicates": shared, "distinct_near_duplicates": distinct,
                     "duplicated_sinks": sinks, "delayed_reroutes": case.meta.get("reroutes", 0), "runs_compared": len(mr.runs),
                     "packed_parameter_near_duplicates": case.meta.get("packed", 0),
-                    "shared_nodes_with_two_error_captures": case.meta.get("errtwice_n", 0), "captured_error_values_compared": err_events}
+                    "shared_nodes_with_two_error_captures": case.meta.get("errtwice_n", 0), "captured_error_values_compared": err_events,
+                    "node_pairs_with_different_capture_options": case.meta.get("errpair_n", 0)}
     res.nontrivial = (shared + distinct + sinks) >= 1 and pairs >= 1
     return res
